@@ -8,6 +8,7 @@ mod exports;
 mod extmerge;
 mod imports;
 mod loader;
+mod mutate;
 mod gqljs;
 mod opfile;
 mod parse;
@@ -16,6 +17,7 @@ mod paths;
 mod pipeline;
 mod project;
 mod render;
+mod stages;
 mod tsread;
 mod util;
 
@@ -39,11 +41,14 @@ fn main() {
         "extmerge" => extmerge::run(rest),
         "imports" => imports::run(rest),
         "loader" => loader::run(rest),
+        "mutate" => mutate::run(rest),
         "opfile" => opfile::run(rest),
         "parse" => parse::run(rest),
         "render" => parse::run_render(rest),
         "roundtrip" => printer::run_roundtrip(rest),
         "server" => printer::run_server(rest),
+        "stages" => stages::run(rest),
+        "stages-child" => stages::run_child(rest),
         "opfile-child" => opfile::run_child(rest),
         "opfile-cli" => opfile::run_cli(rest),
         "loader-child" => loader::run_child(rest),
